@@ -726,10 +726,11 @@ inline void visit_const(C& c, uint8_t sid, uint8_t inj, uint8_t meth, bool thiso
 	obs_common(e, c);
 }
 
+template <typename T> inline bool same_object(const T& viaConst, const T& viaMutable) { return &viaConst == &viaMutable; }   // binds a temporary too, should access<>() ever return one
 template <typename SELF, typename BASE> inline bool thisok(const BASE* self) {
 	const Inst* cm = curInst();   // the const overload of access<T>() must name the same object
 	return static_cast<const void*>(self) == static_cast<const void*>(static_cast<const BASE*>(&curInst()->template access<SELF>()))
-		&& static_cast<const void*>(&cm->template access<SELF>()) == static_cast<const void*>(&curInst()->template access<SELF>());
+		&& same_object(cm->template access<SELF>(), curInst()->template access<SELF>());
 }
 
 // --------------------------------------------------------------------------- logger
